@@ -30,7 +30,7 @@ func init() {
 		ID:    "C08",
 		Level: "exploration",
 		Rule: "E1 bounded-exhaustive enumeration, per width n in {1,2,4,8}: (split) every string of length ≤2 over all 256 byte values and of length ≤L over {00,01,7f,80,ff,a5,5a,'a'}: FromStr length and every word, Get at every index, ToStr∘FromStr; " +
-			"(pack) ToStr on every list of in-range words up to a width-dependent length (every partial-last-byte shape); (diff) FirstDiff on every ordered pair of strings of length ≤D over 6 bytes × every from in [0, words+2] × every end in [-1, words+2]; (diff, long) FirstDiff on every ordered pair of 48 strings of 8..19 bytes (4 stem variants × 3 tails) and on single-byte flips of bases of EVERY length 1..40 at every byte position × every from × 7 ends; (big) strings of 2^8, 2^12, 2^16 (±1) bytes: FromStr/ToStr/Get and FirstDiff against copies with one flipped byte; (lists) FromStrs/ToStrs element-wise (and the FromStrs elements once more after appending a byte to each: results must not alias each other) on every list of ≤3 strings over 4 strings. " +
+			"(pack) ToStr on every list of in-range words up to a width-dependent length (every partial-last-byte shape); (diff) FirstDiff on every ordered pair of strings of length ≤D over 6 bytes × every from in [0, words+2] × every end in [-1, words+2]; (diff, far windows) the same pairs with from and/or end far beyond both strings: 2^31, 2^32, 2^60, 2^61, 2^62, 3·2^61 (each ±1), MaxInt-1, MaxInt - every from in [0, words+2] ∪ far × every far end, and every far from × every end in [-1, words+2]; (diff, long) FirstDiff on every ordered pair of 48 strings of 8..19 bytes (4 stem variants × 3 tails) and on single-byte flips of bases of EVERY length 1..40 at every byte position × every from × 7 ends; (big) strings of 2^8, 2^12, 2^16 (±1) bytes: FromStr/ToStr/Get and FirstDiff against copies with one flipped byte; (lists) FromStrs/ToStrs element-wise (and the FromStrs elements once more after appending a byte to each: results must not alias each other) on every list of ≤3 strings over 4 strings. " +
 			"Oracle: the string's '0'/'1' rendering cut into n-bit groups. A case is one call; non-trivial when the string/list is non-empty.",
 		Assumptions: []string{"from < 0 and end < -1 are outside the statement and not called; long strings over the full byte alphabet are not enumerated"},
 		Run:         c08Run,
@@ -98,6 +98,26 @@ func refPack(ws []byte, n int) string {
 		out[i] = byte(ref.BitsVal(bits[8*i : 8*i+8]))
 	}
 	return string(out)
+}
+
+// c08FarInts: window bounds far beyond any string: around 2^31 and 2^32 (where a
+// 32-bit intermediate wraps), around MaxInt/width for every width (where
+// bound*width wraps), and the largest ints. Values that do not fit the
+// platform's int are left out.
+func c08FarInts() []int {
+	const maxInt = int64(^uint(0) >> 1)
+	var out []int
+	seen := map[int64]bool{}
+	for _, b := range []int64{1 << 31, 1 << 32, 1 << 60, 1 << 61, 1 << 62, 1<<62 + 1<<61, 1<<63 - 1} {
+		for _, d := range []int64{-1, 0, 1} {
+			v := b + d
+			if v > 0 && v <= maxInt && (b != 1<<63-1 || d <= 0) && !seen[v] {
+				seen[v] = true
+				out = append(out, int(v))
+			}
+		}
+	}
+	return out
 }
 
 func refFirstDiff(a, b string, n, from, end int) int {
@@ -259,6 +279,53 @@ func c08Run(c *mc.Ctx) {
 		c.Add("firstdiff_cases", evals)
 	})
 	c.ForceSample(map[string]interface{}{"fn": "FirstDiff", "width": 4, "a": "a5ff", "b": "a580", "from": 0, "end": -1, "expected": refFirstDiff("\xa5\xff", "\xa5\x80", 4, 0, -1)})
+
+	// (diff, far windows) from and/or end far beyond both strings, up to the largest int: "no limit"
+	// spelled as MaxInt or 1<<62, and the values at which end*width or from*width leaves the int range
+	far := c08FarInts()
+	for _, n := range c08Widths {
+		for _, a := range ds {
+			wa := 8 * len(a) / n
+			c.Expect(int64(len(ds)) * int64(len(far)) * int64((wa+3+len(far))+(wa+4)))
+		}
+	}
+	c.Par(len(ds)*4, func(k int) {
+		if c.TooMany() {
+			return
+		}
+		n := c08Widths[k%4]
+		a := ds[k/4]
+		wa := 8 * len(a) / n
+		var evals, nontriv int64
+		one := func(bi int, b string, from, end int) {
+			want := refFirstDiff(a, b, n, from, end)
+			got, p := bwFirstDiff(n, a, b, from, end)
+			if p != "" || got != want {
+				c.Fail(6<<50|int64(k)<<32|int64(bi)<<16|evals&0xffff, "FirstDiff", "FirstDiff/far", c08Case{Width: n, A: gen.Bytes(a), B: gen.Bytes(b), From: from, End: end}, p+fmt.Sprint(got), fmt.Sprint(want))
+			}
+			evals++
+			if len(a) > 0 && len(b) > 0 {
+				nontriv++
+			}
+		}
+		for bi, b := range ds {
+			for _, end := range far {
+				for from := 0; from <= wa+2; from++ {
+					one(bi, b, from, end)
+				}
+				for _, from := range far {
+					one(bi, b, from, end)
+				}
+			}
+			for _, from := range far {
+				for end := -1; end <= wa+2; end++ {
+					one(bi, b, from, end)
+				}
+			}
+		}
+		c.Count(evals, nontriv)
+		c.Add("firstdiff_far_window_cases", evals)
+	})
 
 	// (diff, long) strings of 8..19 bytes: 4 stem variants × tails, all ordered pairs, plus single-byte
 	// flips of two bases at every byte position; every from, and ends around the interesting places
